@@ -143,7 +143,7 @@ def _check(ctx, case):
                     return "stop"
             return None
 
-        res = Q.run_op(a, qop, hook=hook, via_queue=via_queue)
+        res = Q.run_op(a, qop, hook=hook, via_queue=via_queue, wire=True)
         if not started["v"]:
             log.append(("start", oi, op["msg_id"]))  # handler never ran (e.g. request refused)
         log.append(("end", oi))
